@@ -365,3 +365,31 @@ func OpenJob(t *testing.T) (*Job, *Emitter) {
 	_ = os.MkdirAll(job.Dir, 0o755)
 	return &job, &Emitter{out}
 }
+
+// Pure runs a body that needs no simulation (direct calls of helpers) and records its result like a scenario.
+func (u *Unit) Pure(name string, spec any, body func(sc *Scen)) *ScenResult {
+	if u.Job.Only != "" && u.Job.Only != name {
+		return nil
+	}
+	for _, sk := range u.Job.Skip {
+		if sk == name {
+			return nil
+		}
+	}
+	res := &ScenResult{Ev: "scen", Unit: u.Idx, Name: name, Spec: spec}
+	u.emit(map[string]any{"ev": "start", "unit": u.Idx, "name": name})
+	t0 := time.Now()
+	sc := &Scen{U: u, Name: name, res: res}
+	body(sc)
+	res.RealS = time.Since(t0).Seconds()
+	switch {
+	case len(res.Violations) > 0:
+		res.Verdict = "violated"
+	case res.Why != "":
+		res.Verdict = "inconclusive"
+	default:
+		res.Verdict = "held"
+	}
+	u.emit(res)
+	return res
+}
